@@ -1,5 +1,4 @@
 """C19: HyperBall results are independent of schedule and mode, and track the truth."""
-import re
 from props import codec
 LEVEL = "other"
 ASSUMPTIONS = [
@@ -17,7 +16,9 @@ ASSUMPTIONS = [
 EXPLANATION = (
     "Exact equality of the per-node counters across threads, granularities, transpose, stores and entry points is "
     "proved for the model (every legal skipping decision and schedule yields the synchronous iteration, whose value "
-    "is the join over the ball) and tested on the implementation by exact comparison inside groups. The statistical "
+    "is the join over the ball; the neighbourhood function the repaired code accumulates -- full scan in standard "
+    "iterations, compensation of the modified counters in systolic ones -- is proved equal to the sum of the exact "
+    "sizes at every iteration) and tested on the implementation by exact comparison inside groups. The statistical "
     "clause (estimates within 6 standard errors with 2^14 registers) and floating-point sums are tolerance tests, "
     "not theorems; hence level 'other'.")
 
@@ -25,30 +26,9 @@ ORACLE = {"refusal", "status", "nf_mono", "shape", "group_est", "group_iters", "
 CORR = {"trace", "iters", "model_sync", "est_corr", "nf_corr"}
 
 
-def local_not_systolic(case, of):
-    """A pre-local iteration that modifies at least n/4 counters is followed by an iteration that is local (only
-    the check list is scanned) but not systolic (the neighbourhood function is summed from zero over the scanned
-    nodes only): that value is too small, gets clamped to the previous one, and `last` is wrong afterwards."""
-    if all(f.startswith("group_nf:") for f in of) and case.get("tr") == "1" \
-            and re.search(r"P:\d+,N", case.get("trace", "")):
-        return ("neighbourhood function differs from the run without transpose when a pre-local iteration is "
-                "followed by a standard one (local && !systolic scans only the check list but sums from zero); "
-                "per-node counters and centralities unaffected (algo/src/distances/hyperball.rs iterate: "
-                "`ic.local = ic.pre_local`)")
-    return None
-
-
-def built_outside_smaller_pool(case, of):
-    """`build` sizes the per-thread buffers `local_next_must_be_checked` with rayon::current_num_threads() of the
-    pool it is called in; `parallel_task` indexes them with the broadcast index of the pool that runs.  The CLI
-    builds outside its pool, so `webgraph dist hyperball -j N` with N above the number of cores panics."""
-    if all(f.startswith("status:FAIL(panic:index_out_of_bounds") for f in of) and case.get("bo") == "1" \
-            and int(case.get("t", "0")) > int(case.get("gp", "1000")):
-        return ("HyperBall built outside the pool that runs it (as cli/src/dist/hyperball/mod.rs does) panics with "
-                "index out of bounds when that pool has more threads than the pool current at build time "
-                "(algo/src/distances/hyperball.rs build: local_next_must_be_checked sized by "
-                "rayon::current_num_threads(); parallel_task: indexed by broadcast_context.index())")
-    return None
+# No known findings: the two defects this check found (a local, non-systolic iteration recorded a wrong
+# neighbourhood function: /repo 2d19c25; index out of bounds when run in a pool larger than the one HyperBall was
+# built in: /repo 9351bae) are repaired.  A recurrence of either is a VIOLATION (group_nf / nf_corr, resp. status).
 
 
 def nontrivial(case):
@@ -71,6 +51,7 @@ def run(ctx):
                                ORACLE, CORR, nontrivial=nontrivial, seed_offset=2, name="hball_acc",
                                env_extra={"HBALL_CASES": "4"}))
     # a machine with 3 cores (global pool of 3 threads) running pools of up to 16 threads built as the CLI does
+    # (outside the pool that runs the iterations: the per-thread buffers must follow the running pool)
     rs.append(codec.run_simple("C19", ctx, "hball", ["--count", "15" if quick else "150", "--maxn", "60", "--mode", "seq"],
                                ORACLE, CORR, nontrivial=nontrivial, seed_offset=3, name="hball_cli",
                                env_extra={"HBALL_CASES": "5", "HBALL_BO_ALWAYS": "1", "RAYON_NUM_THREADS": "3"}))
@@ -107,6 +88,6 @@ def run(ctx):
                  "granularity (nodes/arcs), transpose, in-memory/external store, high/low-level builder, centralities "
                  "on/off, build inside/outside the pool; non-trivial = >= 2 nodes, >= 1 arc, not refused; distinct = "
                  "different (group, configuration)")
-    violations, known = codec.verdict("C19", r, known_matchers=[local_not_systolic, built_outside_smaller_pool])
+    violations, known = codec.verdict("C19", r, known_matchers=[])
     r.update({"violations": violations, "known": known})
     return r
